@@ -245,5 +245,290 @@ theorem C15_request_cookies (values : List Bytes) (hp : ∀ v ∈ values, Plain 
     rw [lookup_foldl]
     cases Rfc6265.lookup ps name <;> simp [mapLookup]
 
+/-! ### Response side: Set-Cookie read back by the RFC 6265 §5.2 algorithm -/
+
+open Rfc6265 in
+/-- RFC-valid components (explicit, decidable): no `;` anywhere, no `=` in the name, nothing that
+    the client-side algorithm would strip or rewrite (surrounding blanks, a leading dot or upper
+    case in the domain), path starting with `/`. -/
+structure WfCookie (c : Cookie) : Prop where
+  name_ne : c.name ≠ []
+  name_semi : ∀ b ∈ c.name, b ≠ 59
+  name_eq : ∀ b ∈ c.name, b ≠ 61
+  name_trim : trim c.name = c.name
+  value_semi : ∀ b ∈ c.value, b ≠ 59
+  value_trim : trim c.value = c.value
+  domain_ok : c.domain = [] ∨ ((∀ b ∈ c.domain, b ≠ 59) ∧ trim c.domain = c.domain ∧
+    c.domain.head? ≠ some 46 ∧ lower c.domain = c.domain)
+  path_ok : c.path = [] ∨ ((∀ b ∈ c.path, b ≠ 59) ∧ trim c.path = c.path ∧ c.path.head? = some 47)
+  expires_ok : ∀ e, c.expires = some e → ∀ b ∈ e, b ≠ 59
+
+theorem split_render (p : Bytes) (as : List Bytes) (hp : ∀ b ∈ p, b ≠ 59) (ha : ∀ a ∈ as, ∀ b ∈ a, b ≠ 59) :
+    splitOn 59 (p ++ (as.map fun a => b!"; " ++ a).flatten) = p :: as.map (32 :: ·) := by
+  induction as generalizing p with
+  | nil => simp [splitOn_no_sep 59 p hp]
+  | cons a t ih =>
+    simp only [List.map_cons, List.flatten_cons, List.cons_append, List.nil_append]
+    rw [splitOn_append_sep 59 p _ hp]
+    have := ih (32 :: a) (by
+      intro b hb
+      simp only [List.mem_cons] at hb
+      rcases hb with rfl | hb
+      · decide
+      · exact ha a (by simp) b hb) (fun x hx => ha x (List.mem_cons_of_mem _ hx))
+    simp only [List.cons_append, List.nil_append] at this ⊢
+    rw [this]
+
+theorem cutEq_pair (n v : Bytes) (hn : ∀ b ∈ n, b ≠ 61) : Rfc6265.cutEq (n ++ 61 :: v) = some (n, v) := by
+  induction n with
+  | nil => simp [Rfc6265.cutEq]
+  | cons x t ih =>
+    have hx := hn x (by simp)
+    simp [Rfc6265.cutEq, hx, ih (fun b hb => hn b (List.mem_cons_of_mem _ hb))]
+
+theorem digit_byte : ∀ k, k < 10 → (48 + k.toUInt8 : UInt8).toNat = 48 + k ∧ Rfc6265.isDigit (48 + k.toUInt8) = true ∧
+    Rfc6265.wsp (48 + k.toUInt8) = false ∧ (48 + k.toUInt8 : UInt8) ≠ 59 ∧ (48 + k.toUInt8 : UInt8) ≠ 45 := by decide
+
+theorem decVal_append (a : Bytes) (d : UInt8) : Rfc6265.decVal (a ++ [d]) = Rfc6265.decVal a * 10 + (d.toNat - 48) := by
+  simp [Rfc6265.decVal, List.foldl_append]
+
+/-- Decimal rendering reads back: digits only, non-empty, value preserved. -/
+theorem decimal_spec (n : Nat) :
+    Rfc6265.decVal (decimal n) = n ∧ (decimal n) ≠ [] ∧ (∀ b ∈ decimal n, Rfc6265.isDigit b = true ∧ Rfc6265.wsp b = false ∧ b ≠ 59 ∧ b ≠ 45) := by
+  fun_induction decimal n with
+  | case1 n h =>
+    have := digit_byte n h
+    refine ⟨?_, by simp, ?_⟩
+    · simp [Rfc6265.decVal, this.1]
+    · intro b hb; simp only [List.mem_singleton] at hb; subst hb; exact ⟨this.2.1, this.2.2.1, this.2.2.2.1, this.2.2.2.2⟩
+  | case2 n h ih =>
+    have hd := digit_byte (n % 10) (by omega)
+    obtain ⟨ih1, ih2, ih3⟩ := ih
+    refine ⟨?_, by simp, ?_⟩
+    · rw [decVal_append, ih1, hd.1]; omega
+    · intro b hb
+      simp only [List.mem_append, List.mem_singleton] at hb
+      rcases hb with hb | rfl
+      · exact ih3 b hb
+      · exact ⟨hd.2.1, hd.2.2.1, hd.2.2.2.1, hd.2.2.2.2⟩
+
+theorem trim_no_wsp (s : Bytes) (h : ∀ b ∈ s, Rfc6265.wsp b = false) : Rfc6265.trim s = s := by
+  unfold Rfc6265.trim
+  have h1 : s.dropWhile Rfc6265.wsp = s := by
+    cases s with
+    | nil => rfl
+    | cons x t => simp [List.dropWhile, h x (by simp)]
+  rw [h1]
+  have h2 : s.reverse.dropWhile Rfc6265.wsp = s.reverse := by
+    cases hr : s.reverse with
+    | nil => rfl
+    | cons x t =>
+      have : x ∈ s := by rw [← List.mem_reverse, hr]; simp
+      simp [List.dropWhile, h x this]
+  rw [h2, List.reverse_reverse]
+
+open Rfc6265 in
+theorem attr_domain (s : SetCookie) (d : Bytes) (hne : d ≠ []) (ht : trim d = d) (hdot : d.head? ≠ some 46)
+    (hl : lower d = d) : applyAttr s (32 :: (b!"Domain=" ++ d)) = { s with domain := some d } := by
+  have hc : cutEq (32 :: (b!"Domain=" ++ d)) = some (b!" Domain", d) := by simp [cutEq]
+  have h1 : lower (trim (b!" Domain")) = b!"domain" := by decide
+  unfold applyAttr
+  simp only [hc, h1, ht]
+  simp [hne, hdot, hl]
+
+open Rfc6265 in
+theorem attr_path (s : SetCookie) (p : Bytes) (ht : trim p = p) (hh : p.head? = some 47) :
+    applyAttr s (32 :: (b!"Path=" ++ p)) = { s with path := some p } := by
+  have hc : cutEq (32 :: (b!"Path=" ++ p)) = some (b!" Path", p) := by simp [cutEq]
+  have h1 : lower (trim (b!" Path")) = b!"path" := by decide
+  unfold applyAttr
+  simp only [hc, h1, ht]
+  have : ¬ ((b!"path" : Bytes) == b!"domain") = true := by decide
+  simp [this, hh]
+
+open Rfc6265 in
+theorem attr_expires (s : SetCookie) (e : Bytes) : applyAttr s (32 :: (b!"Expires=" ++ e)) = s := by
+  have hc : cutEq (32 :: (b!"Expires=" ++ e)) = some (b!" Expires", e) := by simp [cutEq]
+  have h1 : lower (trim (b!" Expires")) = b!"expires" := by decide
+  unfold applyAttr
+  simp only [hc, h1]
+  have hx : ∀ t : Bytes, t ∈ [b!"domain", b!"path", b!"max-age", b!"secure", b!"httponly", b!"samesite"] →
+      ((b!"expires" : Bytes) == t) = false := by decide
+  simp [hx]
+
+open Rfc6265 in
+theorem attr_maxage (s : SetCookie) (n : Nat) :
+    applyAttr s (32 :: (b!"Max-Age=" ++ decimal n)) = { s with maxAge := some (n : Int) } := by
+  have hc : cutEq (32 :: (b!"Max-Age=" ++ decimal n)) = some (b!" Max-Age", decimal n) := by simp [cutEq]
+  have h1 : lower (trim (b!" Max-Age")) = b!"max-age" := by decide
+  obtain ⟨hv, hne, hall⟩ := decimal_spec n
+  have ht : trim (decimal n) = decimal n := trim_no_wsp _ (fun b hb => (hall b hb).2.1)
+  unfold applyAttr
+  simp only [hc, h1, ht]
+  have hx : ((b!"max-age" : Bytes) == b!"domain") = false ∧ ((b!"max-age" : Bytes) == b!"path") = false := by decide
+  simp only [hx.1, hx.2, Bool.false_eq_true, if_false, beq_self_eq_true, if_true]
+  cases hd : decimal n with
+  | nil => exact absurd hd hne
+  | cons f r =>
+    have hf := hall f (by rw [hd]; simp)
+    have hr : r.all Rfc6265.isDigit = true := by
+      simp only [List.all_eq_true]; intro b hb; exact (hall b (by rw [hd]; simp [hb])).1
+    have hf45 : (f == 45) = false := by simpa using hf.2.2.2
+    simp only [hf.1, hr, Bool.true_or, Bool.and_self, if_true, hf45, Bool.false_eq_true, if_false]
+    rw [← hd, hv]
+
+open Rfc6265 in
+theorem attr_flags (s : SetCookie) :
+    applyAttr s (b!" HttpOnly") = { s with httpOnly := true } ∧
+    applyAttr s (b!" Secure") = { s with secure := true } ∧
+    applyAttr s (b!" SameSite=Strict") = { s with sameSite := some (b!"strict") } ∧
+    applyAttr s (b!" SameSite=Lax") = { s with sameSite := some (b!"lax") } ∧
+    applyAttr s (b!" SameSite=None") = { s with sameSite := some (b!"none") } := by
+  refine ⟨?_, ?_, ?_, ?_, ?_⟩ <;> rfl
+
+/-- What a client must read back. -/
+def expected (c : Cookie) : Rfc6265.SetCookie :=
+  { name := c.name, value := c.value,
+    domain := if c.domain = [] then none else some c.domain,
+    path := if c.path = [] then none else some c.path,
+    maxAge := if c.maxAge > 0 ∨ c.maxAgeSubsec = true then some (c.maxAge : Int) else none,
+    secure := c.secure, httpOnly := c.httpOnly,
+    sameSite := some (match c.sameSite with | .strict => b!"strict" | .lax => b!"lax" | .none => b!"none") }
+
+theorem foldl_opt {σ : Type} (f : σ → Bytes → σ) (s : σ) (cond : Prop) [Decidable cond] (x : Bytes) :
+    ((if cond then [x] else []).map (32 :: ·)).foldl f s = if cond then f s (32 :: x) else s := by
+  split <;> simp
+
+theorem attrs_no_semi (c : Cookie) (h : WfCookie c) : ∀ a ∈ attrs c, ∀ b ∈ a, b ≠ 59 := by
+  intro a ha b hb
+  unfold attrs at ha
+  simp only [List.mem_append, List.mem_singleton] at ha
+  have lit : ∀ (l : Bytes), l ∈ [b!"Domain=", b!"Expires=", b!"HttpOnly", b!"Max-Age=", b!"Path=",
+      b!"SameSite=Strict", b!"SameSite=Lax", b!"SameSite=None", b!"Secure"] → ∀ x ∈ l, x ≠ 59 := by decide
+  rcases ha with ((((((ha | ha) | ha) | ha) | ha) | ha) | ha)
+  · split at ha
+    · simp only [List.mem_singleton] at ha; subst ha
+      simp only [List.mem_append] at hb
+      rcases hb with hb | hb
+      · exact lit _ (by simp) b hb
+      · rcases h.domain_ok with hd | hd
+        · rw [hd] at hb; simp at hb
+        · exact hd.1 b hb
+    · simp at ha
+  · split at ha
+    · next e he =>
+      simp only [List.mem_singleton] at ha; subst ha
+      simp only [List.mem_append] at hb
+      rcases hb with hb | hb
+      · exact lit _ (by simp) b hb
+      · exact h.expires_ok e he b hb
+    · simp at ha
+  · split at ha
+    · simp only [List.mem_singleton] at ha; subst ha; exact lit _ (by simp) b hb
+    · simp at ha
+  · split at ha
+    · simp only [List.mem_singleton] at ha; subst ha
+      simp only [List.mem_append] at hb
+      rcases hb with hb | hb
+      · exact lit _ (by simp) b hb
+      · exact ((decimal_spec c.maxAge).2.2 b hb).2.2.1
+    · simp at ha
+  · split at ha
+    · simp only [List.mem_singleton] at ha; subst ha
+      simp only [List.mem_append] at hb
+      rcases hb with hb | hb
+      · exact lit _ (by simp) b hb
+      · rcases h.path_ok with hd | hd
+        · rw [hd] at hb; simp at hb
+        · exact hd.1 b hb
+    · simp at ha
+  · subst ha
+    generalize c.sameSite = ss at hb
+    cases ss <;> exact lit _ (by simp) b hb
+  · split at ha
+    · simp only [List.mem_singleton] at ha; subst ha; exact lit _ (by simp) b hb
+    · simp at ha
+
+/-- **Set-Cookie round trip.**  For every cookie built from RFC-valid components, the RFC 6265 §5.2
+    client algorithm applied to the emitted field value reads back the same name, value, Domain,
+    Path, Max-Age (whole seconds; absent when the duration is zero), Secure, HttpOnly and SameSite;
+    an `Expires` attribute, when present, does not disturb any of them. -/
+theorem C15_set_cookie_roundtrip (c : Cookie) (h : WfCookie c) :
+    Rfc6265.parseSetCookie (render c) = some (expected c) := by
+  unfold Rfc6265.parseSetCookie render
+  have hp : ∀ b ∈ c.name ++ [61] ++ c.value, b ≠ 59 := by
+    intro b hb
+    simp only [List.mem_append, List.mem_singleton] at hb
+    rcases hb with (hb | rfl) | hb
+    · exact h.name_semi b hb
+    · decide
+    · exact h.value_semi b hb
+  rw [split_render _ _ hp (attrs_no_semi c h)]
+  have hcut : Rfc6265.cutEq (c.name ++ [61] ++ c.value) = some (c.name, c.value) := by
+    have := cutEq_pair c.name c.value h.name_eq
+    simpa using this
+  simp only [hcut, h.name_trim, h.value_trim, h.name_ne, if_false]
+  congr 1
+  -- the attribute list, case by case
+  have hdom : c.domain = [] ∨ (c.domain ≠ [] ∧ Rfc6265.trim c.domain = c.domain ∧ c.domain.head? ≠ some 46 ∧
+      Rfc6265.lower c.domain = c.domain) := by
+    by_cases hd : c.domain = []
+    · exact Or.inl hd
+    · rcases h.domain_ok with hd' | ⟨_, h2, h3, h4⟩
+      · exact absurd hd' hd
+      · exact Or.inr ⟨hd, h2, h3, h4⟩
+  have hpath : c.path = [] ∨ (c.path ≠ [] ∧ Rfc6265.trim c.path = c.path ∧ c.path.head? = some 47) := by
+    by_cases hd : c.path = []
+    · exact Or.inl hd
+    · rcases h.path_ok with hd' | ⟨_, h2, h3⟩
+      · exact absurd hd' hd
+      · exact Or.inr ⟨hd, h2, h3⟩
+  unfold attrs expected
+  rcases hdom with hd | ⟨hd, hd2, hd3, hd4⟩ <;> rcases hpath with hp' | ⟨hp', hp2, hp3⟩
+  ·
+    cases hce : c.expires <;> cases hss : c.sameSite <;> cases hh : c.httpOnly <;> cases hsec : c.secure <;>
+      by_cases hm : (c.maxAge > 0 ∨ c.maxAgeSubsec = true) <;>
+      simp only [hd, hp', hm, ne_eq, not_true_eq_false, not_false_eq_true, if_true, if_false, List.append_nil,
+        List.nil_append, List.map_append, List.map_cons, List.map_nil, List.foldl_append, List.foldl_cons,
+        List.foldl_nil, Bool.false_eq_true] <;>
+      simp only [attr_expires, attr_maxage,
+        (attr_flags _).1, (attr_flags _).2.1, (attr_flags _).2.2.1, (attr_flags _).2.2.2.1, (attr_flags _).2.2.2.2]
+  ·
+    cases hce : c.expires <;> cases hss : c.sameSite <;> cases hh : c.httpOnly <;> cases hsec : c.secure <;>
+      by_cases hm : (c.maxAge > 0 ∨ c.maxAgeSubsec = true) <;>
+      simp only [hd, hp', hm, ne_eq, not_true_eq_false, not_false_eq_true, if_true, if_false, List.append_nil,
+        List.nil_append, List.map_append, List.map_cons, List.map_nil, List.foldl_append, List.foldl_cons,
+        List.foldl_nil, Bool.false_eq_true] <;>
+      simp only [attr_path _ _ hp2 hp3, attr_expires, attr_maxage,
+        (attr_flags _).1, (attr_flags _).2.1, (attr_flags _).2.2.1, (attr_flags _).2.2.2.1, (attr_flags _).2.2.2.2]
+  ·
+    cases hce : c.expires <;> cases hss : c.sameSite <;> cases hh : c.httpOnly <;> cases hsec : c.secure <;>
+      by_cases hm : (c.maxAge > 0 ∨ c.maxAgeSubsec = true) <;>
+      simp only [hd, hp', hm, ne_eq, not_true_eq_false, not_false_eq_true, if_true, if_false, List.append_nil,
+        List.nil_append, List.map_append, List.map_cons, List.map_nil, List.foldl_append, List.foldl_cons,
+        List.foldl_nil, Bool.false_eq_true] <;>
+      simp only [attr_domain _ _ hd hd2 hd3 hd4, attr_expires, attr_maxage,
+        (attr_flags _).1, (attr_flags _).2.1, (attr_flags _).2.2.1, (attr_flags _).2.2.2.1, (attr_flags _).2.2.2.2]
+  ·
+    cases hce : c.expires <;> cases hss : c.sameSite <;> cases hh : c.httpOnly <;> cases hsec : c.secure <;>
+      by_cases hm : (c.maxAge > 0 ∨ c.maxAgeSubsec = true) <;>
+      simp only [hd, hp', hm, ne_eq, not_true_eq_false, not_false_eq_true, if_true, if_false, List.append_nil,
+        List.nil_append, List.map_append, List.map_cons, List.map_nil, List.foldl_append, List.foldl_cons,
+        List.foldl_nil, Bool.false_eq_true] <;>
+      simp only [attr_domain _ _ hd hd2 hd3 hd4, attr_path _ _ hp2 hp3, attr_expires, attr_maxage,
+        (attr_flags _).1, (attr_flags _).2.1, (attr_flags _).2.2.1, (attr_flags _).2.2.2.1, (attr_flags _).2.2.2.2]
+
+/-- `with_set_cookie` adds exactly one `set-cookie` field per cookie, after the existing fields. -/
+theorem C15_one_field_per_cookie (hs : HeaderList) (c : Cookie) :
+    Headers.add hs (b!"set-cookie") (render c) = hs ++ [⟨b!"set-cookie", render c⟩] := rfl
+
+/-- Non-vacuity: a cookie with every attribute set satisfies the well-formedness predicate. -/
+def sampleCookie : Cookie :=
+  { name := b!"SID", value := b!"a=b==", domain := b!"a.example.org", path := b!"/x?y=1",
+    maxAge := 3600, sameSite := .lax, expires := some (b!"2023-11-14T22:13:20Z") }
+
+example : WfCookie sampleCookie := by
+  constructor <;> first | decide | (right; decide) | (intro e he; cases he; decide)
+
 end C15
 end Servlin
